@@ -116,6 +116,10 @@ func (w *World) verifyUnit(u *Unit) *Exec {
 		for _, t := range texts {
 			for _, m := range succRe.FindAllStringSubmatch(t, -1) {
 				st.heap[e.succFlag(m[1])] = "false"
+				if e.succNamed == nil {
+					e.succNamed = map[string]bool{}
+				}
+				e.succNamed[m[1]] = true
 			}
 			for _, m := range calledRe.FindAllStringSubmatch(t, -1) {
 				if e.calledNamed == nil {
@@ -214,6 +218,10 @@ func (e *Exec) frameTargets(fr *Frame) map[string][]modTarget {
 // frameFormula: "heap map h differs from its entry value only where the modifies clause allows,
 // for objects that existed at entry". ok=false if there is nothing to state.
 func (e *Exec) frameFormula(fr *Frame, st *State, h string) (string, bool) {
+	// code executed in place (closures, tiny helpers) is bound by the frame of the function it runs in
+	for fr.outer != nil {
+		fr = fr.outer
+	}
 	if fr.fc == nil || fr.fc.ModAll || fr.fc.Flags["noframe"] != "" || fr.entry == nil {
 		return "", false
 	}
@@ -232,7 +240,8 @@ func (e *Exec) frameFormula(fr *Frame, st *State, h string) (string, bool) {
 		}
 	}
 	srt := e.heapSort[h]
-	if !strings.HasPrefix(srt, "(Array ") {
+	if !strings.HasPrefix(srt, "(Array Int ") {
+		// scalars, and maps not indexed by references (the ghost database): unchanged as a whole
 		return eq(cur, old), true
 	}
 	a0 := e.hget(fr.entry, "G_alloc")
